@@ -791,6 +791,10 @@ fn gen_c14(p: &Pools, rng: &mut Rng, pb: &mut PB) {
         let (ra, rb, rt) = (pb.load(Val::Q(a)), pb.load(Val::Q(b)), pb.load(vs(tq)));
         pb.call("slerp_proj", "m", &[ra, rb, rt]);
         pb.call("nlerp_proj", "m", &[ra, rb, rt]);
+        // orthogonal-up-to-rounding pairs: the sign of a tiny dot product decides the side
+        let a5 = [pb.load(Val::I(rng.range(0, 3))), pb.load(Val::I(*rng.pick(&[1i64, -1]))), pb.load(Val::I(rng.range(0, 2))), pb.load(Val::B(rng.chance(1, 2))),
+                  pb.load(vs(*rng.pick(&[q(1, 2), q(1, 1), q(1, 3), q(3, 4), q(0, 1)])))];
+        pb.call("slerp_axis_proj", "m", &a5);
         return;
     }
     match rng.below(4) {
